@@ -99,6 +99,11 @@ def check(ctx, report):
         return
     report.touch(p)
     report.touch(q)
+    if scsv_tabulation(ctx, report, c, p, q):
+        report.floor('C05.R1', 150, 'binary classes')
+        report.floor('C05.R2', 2, 'date formatting sites')
+        return
+    # fallback: the fold / unfold read off the shape of the loop (the functions left the evaluable subset)
     folds = {}
     for n in ast.walk(p.node):
         if isinstance(n, ast.For):
@@ -144,6 +149,166 @@ def check(ctx, report):
         report.add('C05.R3', p.construct + '@fold[else]', 'ordinary cipher suites are not kept by the folding loop')
     report.floor('C05.R1', 150, 'binary classes')
     report.floor('C05.R2', 2, 'date formatting sites')
+
+
+def scsv_tabulation(ctx, report, c, p, q):
+    """TlsHandshakeClientHello._parse and .compose evaluated (sa.miniexec) with model parsers / composers for every cipher
+    suite sequence of length <= 3 over two ordinary suites and the two signalling values: the parser keeps the ordinary
+    suites in order and turns each signalling value into its flag (and only that), the composer writes the ordinary suites
+    in order plus a signalling value exactly for each set flag - so parse(compose(x)) gives x back and a second compose the
+    same bytes.  Helper methods, tables and comprehensions instead of the loop make no difference.  False when either
+    function leaves the evaluable subset (the syntactic reading is used then)."""
+    import itertools
+    from ..miniexec import Evaluator, Native, Obj, Raised, Unsupported, class_call_hook
+    model = ctx.model
+    FB, RN, A, B = 0x5600, 0x00ff, 0xc02f, 0x1301
+    fields = [f.name for f in c.attrs_fields()] if hasattr(c, 'attrs_fields') else []
+
+    def suite(code):
+        return Obj(value=Obj(code=code), code=code)
+    markers = {'FALLBACK_SCSV': suite(FB), 'EMPTY_RENEGOTIATION_INFO_SCSV': suite(RN)}
+
+    def names(nm):
+        parts = nm.split('.')
+        if parts[0] == 'TlsCipherSuiteExtension' and len(parts) >= 2 and parts[1] in markers:
+            v = markers[parts[1]]
+            for a in parts[2:]:
+                v = getattr(v, a)
+            return v
+        raise Unsupported('free name ' + nm)
+
+    class AnyParser(Native):
+        def __init__(self, values=None, truthy=True):
+            self.values = dict(values or {})
+            self.parsed_length = 7
+            self.truthy = truthy
+
+        def __getitem__(self, k):
+            return self.values[k]
+
+        def __bool__(self):
+            return self.truthy
+
+        def parse_parsable(self, name, cls_, *a):
+            self.values.setdefault(name, ('parsed', name))
+    box = {}
+
+    def run_parse(seq):
+        box.clear()
+
+        def extra(n, ev):
+            d = ast.unparse(n.func)
+            if d.endswith('._parse_handshake_header'):
+                return AnyParser({'payload': b'payload'})
+            if d.endswith('._parse_hello_header'):
+                return AnyParser({'protocol_version': 'V', 'random': 'R', 'session_id': 'S', 'cipher_suites': [suite(x) for x in seq],
+                                  'compression_methods': 'C', 'extensions': 'E'})
+            if d.endswith('._parse_extensions'):
+                return ev.ev(n.args[1])
+            if d in ('TlsHandshakeClientHello', 'cls') and 'self' not in ev.env:
+                args = [ev.ev(a) for a in n.args]
+                kw = {k.arg: ev.ev(k.value) for k in n.keywords if k.arg}
+                for k in n.keywords:
+                    if k.arg is None:
+                        kw.update(ev.ev(k.value))
+                got = dict(zip(fields, args))
+                got.update(kw)
+                box['obj'] = got
+                return ('object',)
+            if d == 'TlsExtensionsClient':
+                return 'E0'
+            return NotImplemented
+        hook = class_call_hook(c, extra, model)
+        Evaluator({'parsable': b'x', 'cls': None}, hook, hook.name_hook_for(c.module, names)).function(p.node)
+        return box.get('obj')
+    log = []
+
+    class Composer(Native):
+        composed_bytes = b''
+        composed = b''
+        composed_length = 0
+
+        def compose_numeric_array_enum_coded(self, values):
+            log.append([getattr(v, 'code', None) for v in list(values)])
+
+        def compose_numeric(self, *a):
+            pass
+
+        def compose_parsable(self, *a):
+            pass
+
+        def compose_raw(self, *a):
+            pass
+
+        def compose_bytes(self, *a):
+            pass
+
+    class Suites(Native):
+        def __init__(self, items):
+            self.items = list(items)
+
+        def __iter__(self):
+            return iter(self.items)
+
+        def __len__(self):
+            return len(self.items)
+
+        def get_param(self):
+            return Obj(item_num_size=2, item_size=2)
+
+    def run_compose(seq, fb, rn):
+        del log[:]
+
+        def extra(n, ev):
+            d = ast.unparse(n.func)
+            if d == 'ComposerBinary':
+                return Composer()
+            if d.endswith('._compose_extensions') or d.endswith('._compose_header'):
+                return b''
+            return NotImplemented
+        me = Obj(cipher_suites=Suites([suite(x) for x in seq]), fallback_scsv=fb, empty_renegotiation_info_scsv=rn,
+                 protocol_version='V', random='R', session_id='S', compression_methods='C', extensions=[])
+        hook = class_call_hook(c, extra, model)
+        Evaluator({'self': me}, hook, hook.name_hook_for(c.module, names)).function(q.node)
+        return [x for l in log for x in l]
+    try:
+        for n in range(0, 4):
+            for seq in itertools.product((A, B, FB, RN), repeat=n):
+                report.count('C05.R3')
+                obj = run_parse(seq)
+                want = [x for x in seq if x not in (FB, RN)]
+                if obj is None:
+                    report.add('C05.R3', p.construct + '@fold[object]', 'no client hello object is constructed for the suites %s' % [hex(x) for x in seq])
+                    return True
+                got = [getattr(x, 'code', None) for x in list(obj.get('cipher_suites', []))]
+                for marker, flag, code in (('FALLBACK_SCSV', 'fallback_scsv', FB), ('EMPTY_RENEGOTIATION_INFO_SCSV', 'empty_renegotiation_info_scsv', RN)):
+                    if bool(obj.get(flag)) != (code in seq):
+                        report.add('C05.R3', p.construct + '@fold[%s]' % marker, 'suites %s: the parser sets %s=%s, expected %s' % ([hex(x) for x in seq], flag, obj.get(flag), code in seq))
+                        return True
+                    if code in got:
+                        report.add('C05.R3', p.construct + '@fold[%s]' % marker, '%s is folded into the flag and also kept in the list: every parse/compose cycle duplicates it' % marker)
+                        return True
+                if got != want:
+                    report.add('C05.R3', p.construct + '@fold[else]', 'suites %s: the parser keeps %s, expected the ordinary suites %s in order' % (
+                        [hex(x) for x in seq], [hex(x) if isinstance(x, int) else x for x in got], [hex(x) for x in want]))
+                    return True
+        for seq in ((), (A,), (A, B), (B, A, A)):
+            for fb, rn in itertools.product((False, True), repeat=2):
+                report.count('C05.R3')
+                out = run_compose(seq, fb, rn)
+                for marker, flag, code, on in (('FALLBACK_SCSV', 'fallback_scsv', FB, fb), ('EMPTY_RENEGOTIATION_INFO_SCSV', 'empty_renegotiation_info_scsv', RN, rn)):
+                    if (out.count(code) == 1) != on or out.count(code) > 1:
+                        report.add('C05.R3', q.construct + '@unfold[%s]' % marker, 'compose does not emit %s exactly when self.%s is set (suites %s, flag %s: written %s)' % (
+                            marker, flag, [hex(x) for x in seq], on, [hex(x) if isinstance(x, int) else x for x in out]))
+                        return True
+                if [x for x in out if x not in (FB, RN)] != list(seq):
+                    report.add('C05.R3', q.construct + '@unfold[suites]', 'compose writes %s for the suites %s' % ([hex(x) if isinstance(x, int) else x for x in out], [hex(x) for x in seq]))
+                    return True
+    except (Unsupported, Raised) as e:
+        report.sample({'rule': 'C05.R3', 'tabulation': 'not applicable (%s): the fold is read off the loop instead' % str(e)[:80]})
+        return False
+    report.sample({'rule': 'C05.R3', 'tabulated': '85 suite sequences through _parse, 16 objects through compose'})
+    return True
 
 
 def callee_normalises(model, call):
